@@ -1,6 +1,6 @@
 (* Props/C04.v — Reopen preserves logical content.
    Only statements, `exact`, and Print Assumptions. *)
-From NDB Require Import Engine.Graph Engine.Model Engine.Known Engine.Witness.
+From NDB Require Import Engine.Graph Engine.Model Engine.Known Engine.Witness Engine.Refine_proofs Engine.Reopen_proofs.
 
 Definition C04_full_statement : Prop :=
   forall h, wf_hist h = true ->
@@ -20,3 +20,21 @@ Definition C04_order_fixed_statement : Prop := m_dump (open (run h_rec)) = m_dum
 Theorem C04_order_fixed : C04_order_fixed_statement.
 Proof. exact w_order_fixed. Qed.
 Print Assumptions C04_order_fixed.
+
+(* conditional theorem over ALL histories of the fragment `grow_hist` (see Props/C06.v): close + reopen
+   and drop + reopen leave the canonical dump unchanged (no compaction in the fragment; the fragment
+   contains no label change, hence not K-C04-labels) *)
+Definition C04_reopen_partial_statement : Prop :=
+  forall h, grow_hist h = true -> wf_hist h = true ->
+    m_dump (open (close (run h))) = m_dump (run h) /\ m_dump (open (run h)) = m_dump (run h).
+Theorem C04_reopen_partial : C04_reopen_partial_statement.
+Proof. exact reopen_grow. Qed.
+Print Assumptions C04_reopen_partial.
+
+(* the core of it, for any transaction: replaying the records of a commit rebuilds its memtable *)
+Definition C04_replay_commit_statement : Prop :=
+  forall t l, nolab t -> notomb (tx_mem t) -> mem_wf (tx_mem t) ->
+    fold_left replay_rec (commit_records t) (l, mem0) = (l, tx_mem t).
+Theorem C04_replay_commit : C04_replay_commit_statement.
+Proof. exact replay_commit. Qed.
+Print Assumptions C04_replay_commit.
